@@ -8,7 +8,8 @@ META = {
                   "deleted, so 'nan' is never deleted, and the result is None exactly when nothing is kept; the three template families of get_all_dup are proved to be involutions, and a "
                   "structural obligation on get_all_dup's AST shows that every entry it lists, for every max_param, is an instance of one of them (an entry of another shape, e.g. a 3-cycle, fails it). "
                   "load_subs: the distribution of the file's rows (rank r receives rows LO(r)..LO(r+1)-1 in file order) and their collection (gather, flattening on the root, optional bcast: row LO(q)+c of the "
-                  "result is row c of rank q, on every rank with bcast_res, on rank 0 otherwise) are verified with the SPMD rule for every rank count; the per-entry parsing between the two is bounded only.",
+                  "result is row c of rank q, on every rank with bcast_res, on rank 0 otherwise) are verified with the SPMD rule for every rank count; the per-entry parsing between the two is bounded only. The combination of the per-round records into each function's chain in duplicate_checker.main is verified "
+                  "(every round's row of a function is appended, in round order; an empty round contributes nothing and does not end the combination).",
     "text": "Bounded, on the real code. Round trip: every substitution template the simplifier can record for up to 4 parameters (all rows of the "
             "pairwise-combination table with both targets, the constant-absorption inverses for integers -3..3 and six other numbers, sign flips, "
             "reciprocals, swaps in both key orders, permutations, reorderings, and the 'nan' marker: 482 written strings, built with the writer's "
@@ -59,6 +60,11 @@ def check(run):
             lfailed += f_
     if D.canary(run, "generation/simplifier.py", "load_subs", (lambda: c_spmd.load_subs_collect_contract(True, True))) is False:
         raise RuntimeError("canary verified: engine vacuous on the collection region of load_subs")
+    # the per-round records are combined into each function's chain in round order (shared with C03)
+    from contracts import c_dosympy
+    st_, f_, _e = D.verify_function(run, "generation/duplicate_checker.py", "main", c_dosympy.combine_rounds_contract, timeout_ms=15000, tag="combine-rounds",
+                                    note="region: all_inv_subs = [[]] * ntot and the loop over the rounds: the chain written to inv_subs_<c>.txt is the concatenation, in round order, of the rows recorded for the function")
+    lfailed += f_
     rsp = run.harness("rt_merge.py", {"mode": "array_split", "nmax": 48 if run.tier == "quick" else 200, "pmax": 20 if run.tier == "quick" else 40}, timeout=600)
     run.add_bounded("np.array_split(arange(N), P) is the closed-form tiling (external contract used by the distribution region)", "numpy.array_split", "N <= 48 (200), P <= 20 (40)",
                     rsp["cases"], rsp["distinct"], len(rsp["failures"]))
@@ -149,7 +155,7 @@ def check(run):
     D.report_structural(run, tfailed, "templates", "pyvc/templates.py")
     if lfailed and not run.violations:
         from checks.C14 import report_unproved
-        report_unproved(run, lfailed, False, "simplifier.load_subs (distribution / collection)")
+        report_unproved(run, lfailed, False, "simplifier.load_subs (distribution / collection) / combination of the rounds")
     return run.finish("other", META["text"], CHECKER,
                       rule="round trip: cases = rows read back and compared (a row is re-counted for each rank count and reader mode), distinct = "
                            "different written chains; cancellation: cases = chains enumerated (+ involution/listing checks), distinct = chains with at least one cancelled pair")
